@@ -660,9 +660,17 @@ impl ExecutableContent for SendParameters {
                 let global_clone = datamodel.global_s().clone();
                 let send_id_clone = send_id.clone();
                 let target_str = target_guard.to_string();
+                let timer_id = PLATFORM_ID_COUNTER.fetch_add(1, Ordering::Relaxed);
                 let tg = fsm.schedule(delay_ms, move || {
                     if let Some(sid) = &send_id_clone {
-                        global_clone.lock().unwrap().delayed_send.remove(sid);
+                        // Forget this send only. Other pending sends with the same id stay cancelable (and alive).
+                        let mut global_guard = global_clone.lock().unwrap();
+                        if let Some(pending) = global_guard.delayed_send.get_mut(sid) {
+                            pending.retain(|(id, _)| *id != timer_id);
+                            if pending.is_empty() {
+                                global_guard.delayed_send.remove(sid);
+                            }
+                        }
                     }
                     iopc.lock()
                         .unwrap()
@@ -675,7 +683,9 @@ impl ExecutableContent for SendParameters {
                             .lock()
                             .unwrap()
                             .delayed_send
-                            .insert(sid.clone(), g);
+                            .entry(sid.clone())
+                            .or_default()
+                            .push((timer_id, g));
                     } else {
                         g.ignore();
                     }
